@@ -43,6 +43,10 @@ def check(layout, values) -> list[str]:
         w2["meter_datetime"] = ("dt", RC.exp_dt(*values["meter_datetime"]))  # the list's own clock wins
     errs += [f"body: {e}" for e in RC.dict_errors(d1, w1)]
     errs += [f"frame: {e}" for e in RC.dict_errors(d2, w2)]
+    if not errs:
+        d1.clear()
+        d2["current_l1"] = -1
+        errs += [f"second decode of the same frame: {e}" for e in RC.dict_errors(kaifa.decode_frame_content(bytearray(RC.llc(body, b"\x09\x0c" + RC.dt12(*APDU)))), w2)]
     return errs
 
 
